@@ -264,6 +264,24 @@ Theorem C19_scoped_example : check_scoped ex_scoped = 0%nat /\ check_scoped ex_s
 Proof. exact ex_scoped_checked. Qed.
 Print Assumptions C19_scoped_example.
 
+(* Lazily created node clients (lazy.go): a node behind a provider is a node with latency
+   provider + call that honours cancellation also while the provider runs ([lazy_node]); the
+   wrapper is transparent once the client exists, and keeps the node "hearing", so
+   C19_cancel_returns covers the first use of a hung node. *)
+Theorem C19_lazy_transparent : forall n,
+  lazy_node PCreated n = n /\ lazy_node PNone n = n /\
+  out (lazy_node (PDelay 0) n) = out n /\ delay (lazy_node (PDelay 0) n) = delay n /\ deaf (lazy_node (PDelay 0) n) = deaf n.
+Proof. exact lazy_transparent. Qed.
+Print Assumptions C19_lazy_transparent.
+
+Theorem C19_lazy_hears : forall p n, hears n = true -> hears (lazy_node p n) = true.
+Proof. exact lazy_hears. Qed.
+Print Assumptions C19_lazy_hears.
+
+Theorem C19_lazy_example : check_lazy ex_lazy = 0%nat /\ check_lazy ex_lazy_bad = 1%nat.
+Proof. exact ex_lazy_checked. Qed.
+Print Assumptions C19_lazy_example.
+
 Theorem C19_monitor_rejects :
   monitor (mkc Plain [mkn (Success 101) 5 false; mkn (Success 102) 900 false] [] [0; 1]%nat [] None
                (ROk (P 0) 101) (Some 900) [Done 5; Done 900] []) = false /\
